@@ -2,8 +2,12 @@
 
 Correspondence: every session line runs through forthdrv (ForthMachine32/64 of /repo through the public API) and
 through forthrun (the extracted Rocq model /verif/c19/coq/Forth.v); the observable final states are compared
-exactly.  Property-level checks on the implementation alone: one call vs single-stepped vs mixed
-step/resume segmentations, small vs default output-growth settings, original vs decompiled() source."""
+exactly.  Property-level checks on the implementation alone (made whether or not the model agrees): one call + resume
+vs single-stepped vs mixed step/resume segmentations vs a restart, the same session twice, small vs default
+output-growth settings, the source with `pause` taken out run in one call vs the paused and resumed execution,
+original vs decompiled() source.  Programs come from a grammar-based generator (c19gen.ProgGen) and from the
+structural-position generator StructGen below (stop words pause / halt / exit on the first / middle / last instruction
+of every kind of body, nested)."""
 import os
 import re
 import subprocess
@@ -15,14 +19,44 @@ THEOREMS = []          # filled from Props_C19.v below (kept in sync by build())
 COQ_DIR = os.path.join(C.VERIF, 'c19', 'coq')
 COQ_LOGICAL = '-R . AwkForth'
 NEEDS_SAN = True
+DRIVERS = ('forthdrv',)          # built (also with sanitizers in the thorough tier) by check.py before the run
 BUILD19 = os.path.join(C.BUILD, 'c19')
 CORPUS = os.path.join(C.VERIF, 'corpus', 'C19')
 
-RULE = ('grammar-based random AwkwardForth programs (declarations, user words incl. recursion, if/else, do/loop/+loop, '
+RULE = ('(1) grammar-based random AwkwardForth programs (declarations, user words incl. recursion, if/else, do/loop/+loop, '
         'begin/until/while/repeat/again, variables, typed reads incl. varint/zigzag/nbit, output writes) x random input '
-        'bytes x {32,64} x stack/recursion/output settings x segmentations {run+finish, begin+stepall, mixed}; plus '
-        'fault-provoking programs, compile-error mutants and known-UB seeds; a session is non-trivial when the model '
-        'executed it to a final state with a non-empty stack/output or an error code; distinct by session text')
+        'bytes x {32,64} x stack/recursion/output settings; plus fault-provoking programs, compile-error mutants and '
+        'known-UB seeds.  (2) structural programs: nests (depth 1-3) of {do..loop, do..+loop with the step pushed last / '
+        'pushed first / negative step in the middle / start above stop, begin..until, begin..while..repeat (predicate and '
+        'body), begin..again, if..then, if..else..then (both branches), word definition, recursive word} inside the main '
+        'program; every body has slots before its first instruction, in the middle and after its last instruction, and '
+        'pause / halt / exit is put on chosen slots: every single structure x {first,last} x {pause,halt,exit}, every '
+        'ordered pair of structures with the stop word last in the innermost body and the inner structure last in the '
+        'outer body, every ordered pair with stop words on random slots, random triples; this includes the last '
+        'instruction of a word called last in a loop body and the last instruction of the whole program.  Sessions per '
+        'program: A run + resume until done, B begin + single steps, C begin + mixed steps/resumes, Z = A again, G = A '
+        'with default output growth, and for programs with pause: E run to the first pause then mixed steps/resumes, F '
+        'alternating step/resume then stepping, R abandon a paused execution and run() again, N the source without the '
+        'pause tokens in one run() call.  A session is non-trivial when the model executed it to a final state with a '
+        'non-empty stack/output or an error code; distinct by session text.  '
+        'CLASSIFICATION.  A VIOLATION carries a concrete failing input (no suffix) when (a) the implementation disagrees '
+        'with itself: the observable result (stack, variables, input positions, outputs, error, ready, done) of A differs '
+        'from that of B/C/E/F/R/Z/G/N (or decompiled source) on a program that the model executes to a final state in '
+        'every session (no undefined behaviour, no unsupported word, not out of fuel); a session that exhausts its '
+        'step/resume budget gives no verdict, except where the other session proves the budget was sufficient; the replay '
+        'holds both session lines and both results; or (b) implementation and model end in different states on a session '
+        'whose every token is in the documented vocabulary (control, stack, arithmetic, comparison, bitwise and/or/xor/'
+        'invert, variables, typed fixed-width / varint / zigzag reads, output writes; int32 literals; NOT lshift/rshift, '
+        'N-bit reads, comments, strings), the model is closed on it (a final state: not unsupported, not out of fuel, not '
+        'Fault) and either the error codes differ (neither being recursion_depth_exceeded, whose per-construct accounting '
+        'is not documented) or both finished with error none / user_halt and stack, variables, input positions or '
+        'outputs differ (return codes of the individual calls are not used; sessions are excluded when a float32/float64 '
+        'output holds |v| >= 2^24 / 2^53 or a bool output a value other than 0/1; integer narrowing on output is taken to '
+        'be two\'s-complement truncation as in NumPy astype): the Rocq model is the transcription of the documented '
+        'semantics and Props_C19 proves it deterministic and step-independent, so such a session is an input on which '
+        '"equal those of the documented semantics" fails.  Every other model/implementation difference (undocumented '
+        'corner, compile-error classification, state after a fault, return codes only) keeps the suffix '
+        'no-failing-input-found and names the broken correspondence.')
 ASSUMPTIONS = [
     'vocabulary not modelled (sessions skipped, counted as unsupported): strings (s" .") and print words (. cr .s), '
     'float reads (f-> d->), N-bit reads with N > 31',
@@ -32,6 +66,9 @@ ASSUMPTIONS = [
     'x86-64 build does',
     'integer-valued floats only (float outputs receive integers); bool outputs are compared as raw bytes',
     'timing counters and stdout of print words are not observed',
+    'the pause-free comparison (N) assumes that a program which compiles uses `pause` only as an instruction (it is a '
+    'reserved word, so it cannot be a name) or inside a comment',
+    'budgets: at most 3000 resume() and 6000 step() calls per session; a session that runs out of budget is not compared',
     'sessions whose model evaluation runs out of fuel (non-terminating programs) are not sent to the implementation',
 ]
 TRUSTED_BASE = [
@@ -40,7 +77,8 @@ TRUSTED_BASE = [
     'extraction: ExtrOcamlBasic only, no Extract Constant, Z/positive/nat kept inductive; OCaml 4.13.1; hand-written '
     'reader/printer c19/ocaml/forthrun.ml and ocaml/sx.ml',
     'C++ driver impl/drv/forthdrv.cpp (session syntax, state dump through the public ForthMachine API)',
-    'harness: generator harness/props/c19gen.py, comparison and classification in harness/props/c19.py',
+    'harness: generators harness/props/c19gen.py and StructGen in harness/props/c19.py, comparison and classification '
+    '(incl. the documented-vocabulary list PINNED_WORDS) in harness/props/c19.py',
     'RapidJSON substitute impl/rapidjson_shim (libawkward is compiled against it)',
     'model vs code: c19/coq/Forth.v is a hand-written model of ForthMachine.cpp / ForthInputBuffer.cpp / '
     'ForthOutputBuffer.cpp, tied to the code by differential testing only',
@@ -140,25 +178,58 @@ def parse_line(line):
 STEPCAP = 6000
 
 
-def segmentations(rng, paused):
-    """name -> list of segment atoms; A is the reference (one call, then resume through pauses)"""
-    out = {'A': ['run', '(finish 3000)'], 'B': ['begin', '(stepall %d)' % STEPCAP]}
-    mixed = ['begin']
-    for _ in range(rng.randint(1, 3)):
-        mixed.append('(stepall %d)' % rng.randint(0, 9) if rng.random() < 0.7 else '(finish 1)')
-    mixed += ['(finish 3000)']
-    out['C'] = mixed
+PAUSE_TOKEN = re.compile(r'(?<!\S)pause(?!\S)')
+
+
+def without_pause(src_text):
+    """the same source with every `pause` token taken out (whitespace and all other tokens untouched)"""
+    return PAUSE_TOKEN.sub('', src_text)
+
+
+def _mix(rng, n):
+    """n guarded atoms: (stepall k) = at most k single steps, (finish 1) = one resume; both do nothing once the machine
+    is done / halted / in error, so that a mixed session never calls step()/resume() on a finished machine"""
+    out = []
+    for _ in range(n):
+        out.append('(stepall %d)' % rng.choice([0, 1, 1, 2, 3, 5, 9]) if rng.random() < 0.65 else '(finish 1)')
     return out
+
+
+def segmentations(rng, paused):
+    """name -> list of segment atoms; A is the reference (one call, then resume through pauses).
+    B single-steps through everything; C starts with begin and mixes steps and resumes; for programs that contain
+    `pause` also: E = run to the first pause, then mixed steps / resumes, the rest by resuming; F = alternate single steps
+    and resumes, the rest by stepping; R = abandon a paused execution and start again with run()."""
+    out = {'A': ['run', '(finish 3000)'], 'B': ['begin', '(stepall %d)' % STEPCAP]}
+    out['C'] = ['begin'] + _mix(rng, rng.randint(1, 3)) + ['(finish 3000)']
+    if paused:
+        out['E'] = ['run'] + _mix(rng, rng.randint(2, 6)) + ['(finish 3000)']
+        alt = []
+        for _ in range(rng.randint(2, 6)):
+            alt += ['(stepall %d)' % rng.choice([1, 1, 2, 4]), '(finish 1)']
+        out['F'] = ['begin'] + alt + ['(stepall %d)' % STEPCAP]
+        out['R'] = (['run', '(finish %d)' % rng.randint(0, 2)] if rng.random() < 0.6 else
+                    ['begin', '(stepall %d)' % rng.randint(1, 7)]) + ['run', '(finish 3000)']
+    return out
+
+
+FINISH_BY_RESUME = ('A', 'C', 'E', 'R', 'G', 'Z')       # sessions that end with (finish 3000)
 
 
 def make_case(pid, machine, src_text, inputs, settings, rng, tags):
     src = src_text.encode('latin-1')
-    segs = segmentations(rng, 'pause' in src_text)
+    paused = bool(PAUSE_TOKEN.search(src_text))
+    segs = segmentations(rng, paused)
     lines = {}
     for k, sg in segs.items():
         lines[k] = sx_line('%s.%s' % (pid, k), machine, src, inputs, settings, sg)
     # growth settings: same program, default-size output buffers (implementation-only check of growth independence)
     lines['G'] = sx_line('%s.G' % pid, machine, src, inputs, (settings[0], settings[1], 1024, 15), segs['A'])
+    # determinism: the reference session a second time, on a fresh machine
+    lines['Z'] = sx_line('%s.Z' % pid, machine, src, inputs, settings, segs['A'])
+    if paused:
+        # the property itself: pausing and resuming must not change the result -> the same source without `pause`, one call
+        lines['N'] = sx_line('%s.N' % pid, machine, without_pause(src_text).encode('latin-1'), inputs, settings, ['run'])
     return C.Case(pid, machine, [src_text], [], dict(lines=lines, tags=tags, src=src_text, inputs=inputs, settings=settings))
 
 
@@ -193,6 +264,259 @@ def spec_cases():
         ln = sx_line(pid + '.A', machine, src.encode('latin-1'), [('x', bs)], (1024, 1024, 1024, 15), ['run', '(finish 50)'])
         out.append(C.Case(pid, machine, [src], [], dict(lines={'A': ln}, tags=dict(cls='spec'), src=src, expect_stack=stack,
                                                          sig=sig)))
+    return out
+
+
+# ---------------------------------------------------------------- structural-position generator
+# Programs are nests of control structures; every body of every structure carries SLOTS (before its first instruction,
+# in the middle, after its last instruction).  A stop word (pause / halt / exit) is put on chosen slots, the other
+# slots disappear.  Bodies have observable effects (typed output writes, variables, cells left on the stack), loops
+# are short and always terminate (when the stop words are taken out).
+SKINDS = ['loop', 'ploop', 'ploop_early', 'ploop_neg', 'until', 'while_pred', 'while_body', 'again', 'if', 'else_a',
+          'else_b', 'word', 'rec']
+SDTYPES = ['int64', 'int64', 'int32', 'int16', 'uint8', 'uint32', 'float64', 'int8']
+
+
+class StructGen:
+    def __init__(self, rng, tight=False):
+        self.r = rng
+        self.tight = tight           # tight: no filler after the inner structure (it is the last instruction of the outer body)
+        self.counters = 0
+        self.defs = []
+        self.nwords = 0
+        self.slots = []
+        self.reads = False
+
+    # ------------------------------------------------------------ pieces
+    def slot(self, kind, pos, depth, ctx):
+        sid = len(self.slots)
+        self.slots.append(dict(id=sid, kind=kind, pos=pos, depth=depth, dyn=ctx['dyn'], word=ctx['word']))
+        return '@@%d' % sid
+
+    def counter(self):
+        self.counters += 1
+        return 'c%d' % (self.counters - 1)
+
+    def expr(self, ctx):
+        r = self.r
+        c = list(ctx['idx'])
+        if ctx['do'] >= 1:
+            c += ['i', 'i']
+        if ctx['do'] >= 2:
+            c.append('j')
+        if c and r.random() < 0.75:
+            return r.choice(c).split()
+        return [str(r.randint(-3, 9))]
+
+    def stmt(self, ctx):
+        r = self.r
+        k = r.random()
+        e = self.expr(ctx)
+        if k < 0.35:
+            return e + ['o0', '<-', 'stack']
+        if k < 0.48:
+            return ['1', 'v0', '+!']
+        if k < 0.60:
+            return ['v0', '@', 'o1', '+<-', 'stack']
+        if k < 0.68:
+            return e + ['v1', '!']
+        if k < 0.76:
+            return e + ['v0', '@', '+', 'o2', '<-', 'stack']
+        if k < 0.82:
+            self.reads = True
+            return ['x0', r.choice(['B->', 'b->', '!h->', 'varint->', 'i->']), r.choice(['o0', 'o1', 'stack o2 <- stack'])]
+        if k < 0.86:
+            o = r.choice(['o0', 'o2'])        # `dup` on an empty output is the rewind_beyond error: write first
+            return e + [o, '<-', 'stack', r.choice(['1', '2']), o, 'dup'] if r.random() < 0.5 else ['o0', 'len', 'v1', '+!']
+        if not ctx['neutral']:
+            return e                    # leaves a cell on the stack
+        return e + ['drop']
+
+    def fill(self, ctx, lo=0, hi=2):
+        out = []
+        for _ in range(self.r.randint(lo, hi)):
+            out += ' '.join(self.stmt(ctx)).split()
+        return out
+
+    def cond(self, ctx, want):
+        r = self.r
+        if r.random() < 0.5:
+            truth = want if r.random() < 0.8 else not want
+            return [r.choice(['-1', '1', '7', 'true'])] if truth else [r.choice(['0', 'false'])]
+        return self.expr(ctx) + [str(r.randint(0, 2)), r.choice(['>', '<', '=', '<>', '>=', '<='])]
+
+    def seq(self, kind, depth, ctx, inner, tail=()):
+        """the body of a structure: [first] filler [mid] INNER filler TAIL [last]"""
+        out = [self.slot(kind, 'first', depth, ctx)]
+        out += self.fill(ctx)
+        out.append(self.slot(kind, 'mid', depth, ctx))
+        out += inner
+        if not (self.tight and self.r.random() < 0.75):
+            out += self.fill(ctx)
+        out += list(tail)
+        out.append(self.slot(kind, 'last', depth, ctx))
+        return out
+
+    # ------------------------------------------------------------ nests
+    def nest(self, kinds, depth, ctx):
+        r = self.r
+        if not kinds:
+            return self.fill(ctx, 0 if r.random() < 0.4 else 1, 2)
+        k, rest = kinds[0], kinds[1:]
+        d1 = depth + 1
+        if k in ('loop', 'ploop', 'ploop_early', 'ploop_neg'):
+            lo = r.randint(-1, 2)
+            hi = lo + (r.randint(1, 4) if r.random() < 0.95 else 0)
+            c2 = dict(ctx, do=ctx['do'] + 1, dyn=True)
+            head = [str(hi), str(lo), 'do']
+            if k == 'loop':
+                return head + self.seq(k, d1, c2, self.nest(rest, d1, c2)) + ['loop']
+            if k == 'ploop':
+                return head + self.seq(k, d1, c2, self.nest(rest, d1, c2), tail=[str(r.randint(1, 3))]) + ['+loop']
+            if k == 'ploop_early':
+                # the step is pushed first and lies under the (stack-neutral) body
+                c3 = dict(c2, neutral=True)
+                return head + [str(r.randint(1, 3))] + self.seq(k, d1, c3, self.nest(rest, d1, c3)) + ['+loop']
+            if r.random() < 0.25:
+                # start above stop with a negative step: ForthMachine ends a loop when i >= stop, the body never runs
+                return [str(lo), str(hi), 'do'] + self.seq(k, d1, c2, self.nest(rest, d1, c2), tail=['-1']) + ['+loop']
+            # a negative step in the middle: i = lo, lo+2, lo+1, lo+3, lo+5, ...
+            step = ['i', str(lo + 2), '=', 'if', '-1', 'else', '2', 'then']
+            return head + self.seq(k, d1, c2, self.nest(rest, d1, c2), tail=step) + ['+loop']
+        if k in ('until', 'while_pred', 'while_body', 'again'):
+            c = self.counter()
+            n = str(r.randint(1, 3))
+            c2 = dict(ctx, idx=ctx['idx'] + [c + ' @'])
+            head = [n, c, '!', 'begin']
+            if k == 'until':
+                return head + self.seq(k, d1, c2, self.nest(rest, d1, c2), tail=['-1', c, '+!', c, '@', '0', '<=']) + ['until']
+            if k == 'while_pred':
+                return head + self.seq(k, d1, c2, self.nest(rest, d1, c2), tail=[c, '@', '0', '>']) + ['while'] + \
+                    self.fill(c2, 0, 1) + ['-1', c, '+!', 'repeat']
+            if k == 'while_body':
+                return head + [c, '@', '0', '>', 'while'] + self.seq(k, d1, c2, self.nest(rest, d1, c2), tail=['-1', c, '+!']) + ['repeat']
+            # begin ... again ends through exit (leaves the word / the program) or halt; exit under a do-loop is the
+            # known undefined behaviour (forth-ub-exit-in-do), so halt is used there
+            stopw = 'halt' if ctx['dyn'] else r.choice(['exit', 'exit', 'halt'])
+            return head + self.seq(k, d1, c2, self.nest(rest, d1, c2),
+                                   tail=['-1', c, '+!', c, '@', '0', '<=', 'if', stopw, 'then']) + ['again']
+        if k == 'if':
+            return self.cond(ctx, True) + ['if'] + self.seq(k, d1, ctx, self.nest(rest, d1, ctx)) + ['then']
+        if k == 'else_a':
+            return self.cond(ctx, True) + ['if'] + self.seq(k, d1, ctx, self.nest(rest, d1, ctx)) + ['else'] + \
+                self.fill(ctx, 0, 1) + ['then']
+        if k == 'else_b':
+            return self.cond(ctx, False) + ['if'] + self.fill(ctx, 0, 1) + ['else'] + \
+                self.seq(k, d1, ctx, self.nest(rest, d1, ctx)) + ['then']
+        if k == 'word':
+            c2 = dict(ctx, do=0, word=True)
+            body = self.seq(k, d1, c2, self.nest(rest, d1, c2))        # inner words are defined first
+            name = 'w%d' % self.nwords
+            self.nwords += 1
+            self.defs.append([':', name] + body + [';'])
+            return [name]
+        if k == 'rec':
+            # bounded recursion on a countdown that stays on top of the stack (stack-neutral body)
+            c2 = dict(ctx, do=0, word=True, neutral=True, idx=ctx['idx'] + ['dup'])
+            inner = self.nest(rest, d1, c2)
+            name = 'r%d' % self.nwords
+            self.nwords += 1
+            body = self.seq(k, d1, c2, inner, tail=['1-', r.choice([name, 'recurse'])])
+            self.defs.append([':', name, 'dup', '0', '>', 'if'] + body + ['then', self.slot('rec_end', 'last', depth, c2), ';'])
+            return [str(r.randint(1, 3)), name, 'drop']
+        raise ValueError(k)
+
+    def program(self, kinds):
+        ctx = dict(do=0, dyn=False, neutral=False, word=False, idx=[])
+        main = self.seq('main', 0, ctx, self.nest(list(kinds), 0, ctx))
+        decl = ['variable', 'v0', 'variable', 'v1']
+        for i in range(self.counters):
+            decl += ['variable', 'c%d' % i]
+        if self.reads:
+            decl += ['input', 'x0']
+        for i in range(3):
+            decl += ['output', 'o%d' % i, self.r.choice(SDTYPES)]
+        toks = decl
+        for d in self.defs:
+            toks = toks + d
+        return toks + main
+
+    # ------------------------------------------------------------ stop words on slots
+    def innermost(self, pos):
+        deepest = max(s['depth'] for s in self.slots)
+        cand = [s for s in self.slots if s['depth'] == deepest and s['pos'] == pos and s['kind'] != 'rec_end']
+        return cand[-1] if cand else self.slots[-1]
+
+    def stopword(self, slot, prefer=None):
+        r = self.r
+        w = prefer or r.choice(['pause'] * 7 + ['halt', 'exit', 'exit'])
+        if w == 'exit' and slot['dyn'] and r.random() < 0.95:
+            w = 'pause'                # exit under a do-loop: known undefined behaviour, kept rare
+        return w
+
+    def assign(self, mode, word=None):
+        """mode: 'first' / 'last' of the innermost body, or 'random' -> dict slot id -> stop word"""
+        r = self.r
+        out = {}
+        if mode in ('first', 'last', 'mid'):
+            s = self.innermost(mode)
+            out[s['id']] = self.stopword(s, word)
+            if r.random() < 0.3:       # nested combination: also the last instruction of an enclosing body
+                outer = [t for t in self.slots if t['depth'] < s['depth'] and t['pos'] == 'last']
+                if outer:
+                    out.setdefault(r.choice(outer)['id'], 'pause')
+        else:
+            for s in r.sample(self.slots, min(len(self.slots), r.randint(1, 3))):
+                out[s['id']] = 'pause'
+            if r.random() < 0.3:
+                s = r.choice(self.slots)
+                out[s['id']] = self.stopword(s, r.choice(['halt', 'exit']))
+        return out
+
+    @staticmethod
+    def place(toks, assignment):
+        out = []
+        for t in toks:
+            if t.startswith('@@'):
+                if int(t[2:]) in assignment:
+                    out.append(assignment[int(t[2:])])
+            else:
+                out.append(t)
+        return out
+
+
+def struct_programs(rng, tier):
+    """(kinds, mode, stop word or None, tight) for every single structure x {first, last} x {pause, halt, exit}, every
+    ordered pair of structures (stop word last in the innermost body, tight; and stop words on random slots), and random
+    triples"""
+    plan = []
+    for k in SKINDS:
+        for mode in ('first', 'last'):
+            for w in ('pause', 'halt', 'exit'):
+                plan.append(([k], mode, w, rng.random() < 0.5))
+    for a in SKINDS:
+        for b in SKINDS:
+            plan.append(([a, b], 'last', None, True))
+            plan.append(([a, b], rng.choice(['first', 'random', 'random', 'mid']), None, rng.random() < 0.3))
+    for _ in range(120 if tier == 'quick' else 3000):
+        ks = [rng.choice(SKINDS) for _ in range(rng.choice([2, 3, 3]))]
+        plan.append((ks, rng.choice(['last', 'last', 'first', 'random', 'random']), None, rng.random() < 0.5))
+    return plan
+
+
+def struct_cases(rng, tier):
+    out = []
+    for n, (kinds, mode, word, tight) in enumerate(struct_programs(rng, tier)):
+        g = StructGen(rng, tight=tight)
+        toks = g.program(kinds)
+        asg = g.assign(mode, word)
+        toks = StructGen.place(toks, asg)
+        src = G.render(rng, toks) if rng.random() < 0.3 else ' '.join(toks)
+        inputs = [('x0', [rng.randrange(256) for _ in range(rng.choice([8, 64, 64, 200]))])] if g.reads else []
+        settings = G.gen_settings(rng, tight=True) if rng.random() < 0.06 else \
+            (rng.choice([64, 1024]), rng.choice([16, 1024]), rng.choice([1, 2, 7, 1024]), rng.choice([11, 13, 15, 20, 35]))
+        tags = dict(cls='struct', nest='/'.join(kinds), where=mode, stop='+'.join(sorted(set(asg.values()))))
+        out.append(make_case('t%d' % n, rng.choice(['forth64', 'forth32']), src, inputs, settings, rng, tags))
     return out
 
 
@@ -236,6 +560,7 @@ def cases(rng, tier):
         src = G.render(rng, toks) if tags.get('cls') != 'ub' else ' '.join(toks)
         inputs = G.gen_inputs(rng, max(g.nins, 1 if tags.get('cls') in ('fault', 'ub') else 0))
         out.append(make_case(pid, machine, src, inputs, settings, rng, tags))
+    out += struct_cases(rng, tier)
     return out
 
 
@@ -373,6 +698,9 @@ def features(src):
 
 
 def with_src(line, src_text):
+    """the session line with another program; the pause-free companion (.N) gets the program without `pause`"""
+    if C.LINE_ID.match(line).group(1).endswith('.N'):
+        src_text = without_pause(src_text)
     return re.sub(r'\(src[^)]*\)', '(src %s)' % ' '.join(str(b) for b in src_text.encode('latin-1')), line, 1)
 
 
@@ -403,23 +731,179 @@ def minimise(lines, src_text, still_fails, budget=60):
     return ' '.join(toks)
 
 
-def fails_modeldiff(lines):
+# ---------------------------------------------------------------- which model/implementation differences are concrete
+# Words whose meaning the AwkwardForth documentation (and standard Forth, which it refers to) fixes.  Left out on
+# purpose: lshift / rshift (counts outside 0..width-1 are not specified; the model follows x86), N-bit reads, comments
+# (their nesting rule is a property of this parser), string / print words, float reads.
+PINNED_WORDS = set("""
+    : ; recurse variable input output halt pause if then else do loop +loop i j k begin again until while repeat exit
+    dup drop swap over rot nip tuck + - * / mod /mod negate 1+ 1- abs min max = <> > >= < <= 0= invert and or xor
+    true false ! +! @ len pos end seek skip <- +<- stack rewind
+    bool int8 int16 int32 int64 uint8 uint16 uint32 uint64 float32 float64""".split())
+PINNED_READ = re.compile(r'^#?!?(\?|b|h|i|q|n|B|H|I|Q|N|varint|zigzag)->$')
+DEC_LIT = re.compile(r'^-?\d{1,10}$')
+HEX_LIT = re.compile(r'^0x[0-9a-fA-F]{1,8}$')
+NAME = re.compile(r'^[A-Za-z_][A-Za-z_0-9]*$')
+OUTS = re.compile(r'\((\w+) (\w+) \(([^)]*)\)\)')
+
+
+def err_of(res):
+    m = re.search(r'\(err (\d+)\)', res)
+    return int(m.group(1)) if m else None
+
+
+def pinned_vocabulary(src_text):
+    """every token is a documented word, an int32 literal or a name the program declares"""
+    toks = src_text.split()
+    names = set()
+    for a, b in zip(toks, toks[1:]):
+        if a in ('variable', 'input', 'output', ':'):
+            if not NAME.match(b) or b in PINNED_WORDS:
+                return False
+            names.add(b)
+    for t in toks:
+        if t in PINNED_WORDS or t in names or PINNED_READ.match(t):
+            continue
+        if DEC_LIT.match(t) and -2 ** 31 <= int(t) < 2 ** 31:
+            continue
+        if HEX_LIT.match(t) and int(t, 16) < 2 ** 31:
+            continue
+        return False
+    return True
+
+
+def pinned_difference(line, mres, ci):
+    """True when `model != implementation` on this session is a concrete input on which the property's clause "equal
+    those of the documented semantics" fails (see RULE): documented vocabulary only, the model ended in a final state
+    (closed: not unsupported / out of fuel / Fault), and either the error codes differ (neither is the recursion limit,
+    whose accounting per construct is not documented) or the program ran without a fault (error none / user halt) and
+    stack, variables, input positions or outputs differ.  Values the documentation does not fix exclude the session:
+    integers that a float32 / float64 output cannot hold exactly, bool outputs fed other values than 0 / 1."""
+    p = parse_line(line)
+    if not p or not mres.startswith('ok ') or not ci.startswith('ok '):
+        return False
+    try:
+        text = p['src'].decode('ascii')
+    except UnicodeDecodeError:
+        return False
+    if not pinned_vocabulary(text):
+        return False
+    em, ei = err_of(mres), err_of(ci)
+    if em is None or ei is None or 4 in (em, ei):
+        return False
+    for name, dt, vals in OUTS.findall(mres):
+        try:
+            vs = [int(v) for v in vals.split()]
+        except ValueError:
+            return False
+        # the model shows the value after rounding: |r| < 2^24 (2^53) guarantees that the integer written was exact
+        if dt == 'float32' and any(abs(v) >= 2 ** 24 for v in vs):
+            return False
+        if dt == 'float64' and any(abs(v) >= 2 ** 53 for v in vs):
+            return False
+        if dt == 'bool' and any(v not in (0, 1) for v in vs):
+            return False
+    if em != ei:
+        return True
+    if em not in (0, 3):
+        return False                 # the state left behind by a fault is not documented in detail
+    return observable(mres) != observable(ci)
+
+
+def closed(mres):
+    return bool(mres) and not mres.startswith(('unsupported', 'fuel', 'fault', 'bad'))
+
+
+UNFINISHED = '(err 0) (ready 1) (done 0)'
+RESUME_CAP = 3000
+META_LABEL = {
+    'B': ('single-stepping changes the result', 'prop:step-independence'),
+    'C': ('mixing step() and resume() changes the result', 'prop:step-independence'),
+    'E': ('mixing step() and resume() changes the result', 'prop:step-independence'),
+    'F': ('mixing step() and resume() changes the result', 'prop:step-independence'),
+    'R': ('abandoning a paused execution and starting again with run() changes the result', 'prop:step-independence'),
+    'N': ('pausing and resuming changes the result (compared with the same source without pause, run in one call)',
+          'prop:pause-independence'),
+    'G': ('output-buffer growth settings change the result', 'prop:growth-independence'),
+    'Z': ('the same session executed twice gives two results (not a function of source and input)', 'prop:deterministic'),
+    'D': ('decompiled() source behaves differently from the original', 'prop:decompiled-equivalent'),
+}
+
+
+def nrets(res):
+    m = re.search(r'\(rets([^)]*)\)', res)
+    return len(m.group(1).split()) if m else 0
+
+
+def meta_verdict(a, k, b):
+    """implementation alone: reference session A (one call + resume through the pauses; canonical result text a)
+    against session k of the same program (result text b).  -> 'same' | 'viol' | 'cap' (a budget ran out: no verdict)
+    | 'skip' (not comparable)"""
+    if not a.startswith('ok'):
+        # compile-time fault: every other session of the same source must report it too
+        if k == 'N':
+            return 'skip'
+        return 'same' if observable(a) == observable(b) else 'viol'
+    if k == 'N' and not b.startswith('ok'):
+        return 'skip'
+    oa, ob = observable(a), observable(b)
+    if oa == ob:
+        return 'same'
+    if UNFINISHED in oa:
+        # A made RESUME_CAP resume() calls and is not done; every resume() executes at least one instruction, so
+        # single-stepping needs more than RESUME_CAP steps as well: if B finished in fewer, the executions differ
+        if k == 'B' and UNFINISHED not in ob and nrets(b) < RESUME_CAP:
+            return 'viol'
+        return 'cap'
+    if UNFINISHED in ob:
+        # A finished with fewer than RESUME_CAP resumes, so fewer than RESUME_CAP pauses are executed in total: a
+        # session that ends with (finish RESUME_CAP) must be finished too; one that ends by stepping may need more steps
+        return 'viol' if k in FINISH_BY_RESUME else 'cap'
+    return 'viol'
+
+
+def _impl_model(lines):
     m = run_model(lines, workers=1)
     i, _ = C.run_driver(lines, drv='forthdrv', per_case_timeout=5.0)
+    out = []
     for l in lines:
         sid = C.LINE_ID.match(l).group(1)
-        mr, ir = m.get(sid, ''), i.get(sid, '')
-        if mr.startswith(('unsupported', 'fuel', 'fault')) or ir.startswith('bad') or not mr:
+        out.append((sid, m.get(sid, ''), i.get(sid, '')))
+    return out
+
+
+def fails_modeldiff(lines, need_pinned=False, model_err=None):
+    for l, (sid, mr, ir) in zip(lines, _impl_model(lines)):
+        if not closed(mr) or ir.startswith('bad'):
             continue
-        if ir.startswith(('crash', 'timeout')) or canon_impl(ir) != mr:
+        if need_pinned:
+            # while minimising, the model must keep ending with the same error code (no drift into another fault)
+            if not ir.startswith(('crash', 'timeout')) and pinned_difference(l, mr, canon_impl(ir)) and \
+                    (model_err is None or err_of(mr) == model_err):
+                return True
+        elif ir.startswith(('crash', 'timeout')) or canon_impl(ir) != mr:
             return True
     return False
 
 
-def fails_stepdiff(lines):
-    i, _ = C.run_driver(lines, drv='forthdrv', per_case_timeout=5.0)
-    obs = [observable(canon_impl(i.get(C.LINE_ID.match(l).group(1), ''))) for l in lines]
-    return len(lines) >= 2 and all(o.startswith('ok') for o in obs) and obs[0] != obs[1]
+def fails_metadiff(lines):
+    """two sessions of one program (the first is the reference): the implementation disagrees with itself, and the
+    program is still one the model executes to a final state in both sessions (no undefined behaviour)"""
+    if len(lines) < 2:
+        return False
+    (_, ma, ia), (sk, mk, ik) = _impl_model(lines[:2])
+    if not closed(ma) or not closed(mk) or ia.startswith(('crash', 'timeout', 'bad')) or ik.startswith(('crash', 'timeout', 'bad')):
+        return False
+    return meta_verdict(canon_impl(ia), sk.rpartition('.')[2], canon_impl(ik)) == 'viol'
+
+
+def annotate(lines):
+    """comment lines showing what the implementation and the model answer on the session lines"""
+    out = []
+    for sid, mr, ir in _impl_model(lines):
+        out.append('# impl  %s: %s' % (sid, canon_impl(ir)[:1200]))
+        out.append('# model %s: %s' % (sid, mr[:1200]))
+    return out
 
 
 UB_SIG = {2: 'forth-ub-count-overflow', 3: 'forth-ub-negative-rewind', 4: 'forth-ub-div-trap',
@@ -449,7 +933,7 @@ def run(cases, tier, rng):
     # in a process of their own, so that a later, unrelated session is never blamed for their damage
     ub_lines = [ln for ln in sendable if model[C.LINE_ID.match(ln).group(1)].startswith('fault')]
     ok_lines = [ln for ln in sendable if not model[C.LINE_ID.match(ln).group(1)].startswith('fault')]
-    impl, errs = C.run_driver(ok_lines, drv='forthdrv', per_case_timeout=10.0)
+    impl, errs = run_driver_parallel(ok_lines, per_case_timeout=10.0)
     if ub_lines:
         impl_ub, errs_ub = C.run_driver(ub_lines, drv='forthdrv', per_case_timeout=10.0)
         impl.update(impl_ub)
@@ -464,17 +948,19 @@ def run(cases, tier, rng):
     findings, verd, dist, samples = [], {}, {}, []
     distinct = set()
     corr = {'corr:forth-session': True, 'corr:forth-compile-errors': True, 'prop:step-independence': True,
-            'prop:growth-independence': True, 'prop:decompiled-equivalent': True, 'prop:no-crash': True,
-            'prop:documented-semantics': True}
+            'prop:pause-independence': True, 'prop:deterministic': True, 'prop:growth-independence': True, 'prop:decompiled-equivalent': True,
+            'prop:no-crash': True, 'prop:documented-semantics': True}
 
-    def add(kind, what, clines, sig=None, no_input=False, ob=None):
+    def add(kind, what, clines, sig=None, no_input=False, ob=None, pred=None):
         clines = list(clines) + ['# signature: %s' % sig]
-        findings.append(dict(kind=kind, what=what, case_lines=clines, signature=sig, no_input=no_input,
+        findings.append(dict(kind=kind, what=what, case_lines=clines, signature=sig, no_input=no_input, pred=pred,
                              size=sum(len(x) for x in clines)))
         known = sig is not None and any(k.get('property') == 'C19' and k.get('signature') == sig and k.get('status') != 'fixed'
                                         for k in C.load_known())
-        if ob and not known:
-            corr[ob] = False
+        if not known:
+            for o in (ob if isinstance(ob, (list, tuple)) else [ob]):
+                if o:
+                    corr[o] = False
 
     def count(v):
         verd[v] = verd.get(v, 0) + 1
@@ -484,41 +970,53 @@ def run(cases, tier, rng):
         for t, v in c.meta.get('tags', {}).items():
             dist.setdefault(t, {})
             dist[t][str(v)] = dist[t].get(str(v), 0) + 1
-        obs = {}
+        full = {}            # segmentation -> canonical implementation result, sessions the model executes to a final state
+        all_closed = True
         for k, ln in c.meta['lines'].items():
             sid = '%s.%s' % (c.id, k)
             mres = model.get(sid)
             if mres is None:
                 add('bad', 'forthrun gave no answer for ' + sid, [ln], no_input=True, ob='corr:forth-session')
                 count('bad')
+                all_closed = False
                 continue
             if mres.startswith('unsupported'):
                 count('unsupported')
+                all_closed = False
                 continue
             if mres.startswith('fuel'):
                 count('model-out-of-fuel')
+                all_closed = False
                 continue
             ires = impl.get(sid, 'crash missing')
             if ires.startswith('bad'):
                 add('bad', 'forthdrv rejected the session: ' + ires[:200], [ln], no_input=True, ob='corr:forth-session')
                 count('bad')
+                all_closed = False
                 continue
             if mres.startswith('fault'):
                 kind = int(mres.split()[1])
                 sig = UB_SIG.get(kind, 'forth-ub-%d' % kind)
+                if kind == 1 and {'exit', 'do'} <= set(c.meta.get('src', '').split()):
+                    # exit inside a do-loop leaves a stale do-stack entry (known: forth-ub-exit-in-do); a later
+                    # instruction then runs on that malformed state, which the model reports as Fault 1
+                    sig = 'forth-ub-exit-in-do'
                 add('viol', 'undefined behaviour in ForthMachine (%s; model outcome Fault %d): implementation answered: %s'
                     % (sig, kind, ires[:160]), [ln, '# impl: ' + ires[:600]] + (['# stderr: ' + errs[sid].replace('\n', '\n# ')] if sid in errs else []),
                     sig=sig, ob='prop:no-crash')
                 count('ub')
                 count('ub-kind-%d' % kind)
+                all_closed = False
                 continue
             if ires.startswith('crash') or ires.startswith('timeout'):
                 add('crash', 'forth session: implementation crashed/hung (%s) where the model terminates normally' % ires,
                     [ln, '# model: ' + mres[:600]] + (['# stderr: ' + errs[sid].replace('\n', '\n# ')] if sid in errs else []),
-                    ob='prop:no-crash')
+                    ob='prop:no-crash', pred=fails_modeldiff)
                 count('crash')
+                all_closed = False
                 continue
             ci = canon_impl(ires)
+            full[k] = ci
             if k == 'A' and 'expect_stack' in c.meta:
                 want = '(stack%s)' % ''.join(' %d' % v for v in c.meta['expect_stack'])
                 got = re.search(r'\(stack[^)]*\)', ci)
@@ -531,7 +1029,6 @@ def run(cases, tier, rng):
                     count('spec-viol')
             if ci == mres:
                 count('agree')
-                obs[k] = observable(ci)
                 if san and sid in impl_san and canon_impl(impl_san[sid]) != ci:
                     add('crash', 'sanitizer build differs / reports: ' + impl_san[sid][:200],
                         [ln, '# std: ' + ci[:600], '# san: ' + impl_san[sid][:600], '# stderr: ' + errs_san.get(sid, '').replace('\n', '\n# ')],
@@ -543,7 +1040,7 @@ def run(cases, tier, rng):
                     distinct.add(ln.split(' ', 1)[1])
                     if len(samples) < 6 and k == 'A' and len(ln) < 700:
                         samples.append(ln)
-                if k == 'A' and ires.startswith('ok') and c.meta.get('tags', {}).get('cls') != 'corpus':
+                if k == 'A' and ires.startswith('ok') and c.meta.get('tags', {}).get('cls') not in ('corpus', 'replay'):
                     d = decomp_of(ires)
                     p = parse_line(ln)
                     if d is not None and p:
@@ -552,62 +1049,74 @@ def run(cases, tier, rng):
                         second.append((c, dl, ci))
             else:
                 which = 'corr:forth-compile-errors' if (mres.startswith('err compile') or ires.startswith('err compile')) else 'corr:forth-session'
-                add('modeldiff', 'correspondence %s broken: model and implementation disagree' % which,
-                    [ln, '# impl : ' + ci[:1500], '# model: ' + mres[:1500]], no_input=True, ob=which)
+                if pinned_difference(ln, mres, ci):
+                    # a concrete failing input: the model is the transcription of the documented semantics (see RULE)
+                    add('docdiff', 'result differs from the documented semantics: documented vocabulary only, the model '
+                        '(transcription of the documentation, closed on this session) and the implementation end in different states',
+                        [ln, '# impl : ' + ci[:1500], '# model: ' + mres[:1500]], ob=[which, 'prop:documented-semantics'],
+                        pred=lambda ls, e=err_of(mres): fails_modeldiff(ls, need_pinned=True, model_err=e))
+                    count('documented-semantics-diff')
+                else:
+                    add('modeldiff', 'correspondence %s broken: model and implementation disagree' % which,
+                        [ln, '# impl : ' + ci[:1500], '# model: ' + mres[:1500]], no_input=True, ob=which, pred=fails_modeldiff)
                 count('modeldiff')
-        # ---- property-level: segmentation independence on the implementation alone
-        if 'A' in obs and '(err 0) (ready 1) (done 0)' in obs['A']:
-            count('run-cap-reached')                    # more pauses than the resume budget: nothing to compare
-        elif 'A' in obs:
-            for k in ('B', 'C'):
-                if k in obs and obs[k] != obs['A']:
-                    unfinished = '(err 0) (ready 1) (done 0)'
-                    if unfinished in obs[k]:
-                        count('step-cap-reached')       # the step budget ran out before the program ended
-                        continue
-                    sig = None
-                    add('viol', 'single-stepping changes the result: one call gives %s ; segmentation %s gives %s'
-                        % (obs['A'][:300], k, obs[k][:300]),
-                        [c.meta['lines']['A'], c.meta['lines'][k], '# one call: ' + obs['A'][:800], '# %s       : %s' % (k, obs[k][:800])],
-                        sig=sig, ob='prop:step-independence')
-                    count('step-dependent')
-                    break
-            if 'G' in obs and obs['G'] != obs['A']:
-                add('viol', 'output-buffer growth settings change the result', [c.meta['lines']['A'], c.meta['lines']['G']],
-                    ob='prop:growth-independence')
-                count('growth-dependent')
+        # ---- property-level, on the implementation alone (whether or not the model agrees): the reference session A
+        # against every other segmentation / growth setting / the pause-free source.  Only programs that the model executes
+        # to a final state in every session (undefined behaviour may legitimately depend on the segmentation).
+        if all_closed and 'A' in full:
+            for k in sorted(full):
+                if k == 'A':
+                    continue
+                v = meta_verdict(full['A'], k, full[k])
+                if v == 'same':
+                    count('meta-agree-' + k)
+                elif v == 'cap':
+                    count('run-cap-reached' if UNFINISHED in full['A'] else 'step-cap-reached')
+                elif v == 'skip':
+                    count('meta-not-comparable-' + k)
+                else:
+                    label, ob = META_LABEL.get(k, ('segmentation %s changes the result' % k, 'prop:step-independence'))
+                    la, lk = c.meta['lines']['A'], c.meta['lines'][k]
+                    add('viol', '%s: reference (run, then resume until done) gives %s ; session %s gives %s'
+                        % (label, observable(full['A'])[:300], k, observable(full[k])[:300]),
+                        [la, lk, '# impl  %s.A: %s' % (c.id, full['A'][:1200]), '# impl  %s.%s: %s' % (c.id, k, full[k][:1200])],
+                        ob=ob, pred=fails_metadiff)
+                    count({'B': 'step-dependent', 'G': 'growth-dependent', 'N': 'pause-dependent'}.get(k, 'segmentation-dependent'))
     # ---- decompiled source behaves identically (implementation alone)
     if second:
-        res2, errs2 = C.run_driver([s[1] for s in second], drv='forthdrv', per_case_timeout=10.0)
+        res2, errs2 = run_driver_parallel([s[1] for s in second], per_case_timeout=10.0)
         for c, ln, ref in second:
             sid = '%s.D' % c.id
             r = res2.get(sid, 'crash missing')
             if canon_impl(r) != ref:
-                add('viol', 'decompiled() source behaves differently from the original: %s vs %s' % (canon_impl(r)[:200], ref[:200]),
-                    [c.meta['lines']['A'], ln], ob='prop:decompiled-equivalent')
+                add('viol', '%s: %s vs %s' % (META_LABEL['D'][0], canon_impl(r)[:200], ref[:200]),
+                    [c.meta['lines']['A'], ln, '# impl  %s.A: %s' % (c.id, ref[:1200]), '# impl  %s: %s' % (sid, canon_impl(r)[:1200])],
+                    ob='prop:decompiled-equivalent')
                 count('decompile-diff')
             else:
                 count('decompile-agree')
-    # minimise what is not a known kind of defect (token-level delta debugging, bounded)
+    # minimise what is not a known kind of defect (token-level delta debugging, bounded); concrete inputs first
     nmin = 0
-    for f in sorted(findings, key=lambda f: f['size']):
-        if f['signature'] is not None or f['kind'] == 'bad' or nmin >= 3:
+    for f in sorted(findings, key=lambda f: (f.get('no_input', False), f['size'])):
+        pred = f.get('pred')
+        if f['signature'] is not None or f['kind'] == 'bad' or nmin >= 4 or pred is None:
             continue
         sess = [l for l in f['case_lines'] if l.startswith('(') and parse_line(l)]
         if not sess:
             continue
         src_text = parse_line(sess[0])['src'].decode('latin-1')
-        pred = fails_stepdiff if 'single-stepping' in f['what'] else fails_modeldiff if f['kind'] in ('modeldiff', 'crash') else None
-        if pred is None or not pred(sess):
+        if not pred(sess):
             continue
         nmin += 1
         small = minimise(sess, src_text, pred)
-        f['case_lines'] = [with_src(l, small) for l in sess] + ['# minimised from: ' + ' '.join(src_text.split())[:600]] + \
-            [l for l in f['case_lines'] if l.startswith('#')]
-        f['size'] = sum(len(x) for x in f['case_lines'][:len(sess)])
+        new = [with_src(l, small) for l in sess]
+        f['case_lines'] = new + ['# minimised from: ' + ' '.join(src_text.split())[:600]] + annotate(new) + \
+            [l for l in f['case_lines'] if l.startswith('# signature')]
+        f['size'] = sum(len(x) for x in new)
     # keep the smallest representative per (kind, signature / obligation)
     best = {}
     for f in findings:
+        f.pop('pred', None)
         key = (f['kind'], str(f['signature']), f['what'].split(':')[0][:40])
         if key not in best or f['size'] < best[key]['size']:
             best[key] = f
